@@ -145,7 +145,7 @@ def run_affinity(ctx: Ctx) -> RuleResult:
                             continue
                         checked += 1
                         ok = (af == pf)
-                        props = ['C06'] if (pf in AFTER_ADVANCE and af in AFTER_ADVANCE) else None
+                        props = ['C06', 'C14'] if (pf in AFTER_ADVANCE and af in AFTER_ADVANCE) else None
                         res.ob('%s %s' % (f.loc(n), f.qual), '%s(%s=%s): %s <- %s' % (cq.split(':')[1], pname, norm(arg), pf, af), ok, props=props)
                         if not ok:
                             res.finding(f, n, 'argument %s of family %s is passed as %s (%s) of %s' % (
@@ -669,6 +669,7 @@ def run_meta_triples(ctx: Ctx) -> RuleResult:
     repo = ctx.repo
     res = RuleResult('R-META-TRIPLES', 'PropagatePositions: res.A = getattr(M, container_A, M.A) with M = first child '
                                        'for start fields and last child for end fields')
+    res.default_props = ['C06']
     f = repo.func('lark.parse_tree_builder:PropagatePositions.__call__')
     # which local is the first / last meta?
     first, last = None, None
@@ -740,6 +741,19 @@ def run_meta_triples(ctx: Ctx) -> RuleResult:
     res.ob(g.loc(), '_pp_get_meta yields the first child with coordinates: Tree.meta (non-empty) or the Token itself', ok)
     if not ok:
         res.finding(g, g.node, '_pp_get_meta returns %s, expected the child\'s meta or the token itself' % rets, construct='returns')
+    # the child returned as its own source of coordinates is a Token (a plain str has no line / column: a terminal callback of an
+    # embedded transformer may return one)
+    from ..exprs import path_conditions as _pc
+    self_rets = [n for n in g.body_nodes() if isinstance(n, ast.Return) and n.value is not None and norm(n.value) == lv]
+    okt = bool(self_rets)
+    for r_ in self_rets:
+        conds = [(norm(t), pol) for t, pol in _pc(r_)]
+        okt = okt and ('isinstance(%s, Token)' % lv, True) in conds
+    res.ob(g.loc(), 'a child is taken as its own coordinates only when it is a Token', okt, props=['C06', 'C16'])
+    if not okt:
+        res.finding(g, self_rets[0] if self_rets else g.node, '_pp_get_meta returns a child as the source of coordinates without testing that it is a '
+                    'Token: a value without line / column (a str returned by a terminal callback) is read for positions', construct='returns:token-guard',
+                    props=['C06', 'C16'])
     # non-empty test on tree metas
     tests = [norm(n.test) for n in g.body_nodes() if isinstance(n, ast.If)]
     ok = any('meta.empty' in t and 'not' in t for t in tests)
